@@ -187,50 +187,76 @@ def _make_value(att, spec, holders):
 
 
 class Env:
-    """A real Device + gatt_server.Server + Connection (+ EATT channel) with capturing sinks."""
+    """A real Device + gatt_server.Server with one or several bearers and capturing sinks.
+    A bearer spec is {'mtu','enc','auth','enh'[, 'on': k]}: a fixed ATT bearer is a Connection of its own
+    (connection handle CONN_HANDLE + index) with the given security state; an enhanced bearer ('enh') is a real
+    LeCreditBasedChannel subclass, on its own connection or ('on': k) on the connection of bearer k, whose
+    security state it then shares."""
 
-    def __init__(self, db, bearer, max_mtu=517):
+    def __init__(self, db, bearers, max_mtu=517):
         from bumble import att, core, gatt, gatt_server, hci, l2cap
         from bumble.device import Connection, Device
 
+        if isinstance(bearers, dict):
+            bearers = [bearers]
         self.att = att
-        self.sent = []                # PDUs handed to the bearer by the server, in order
+        self.sent = []                # (bearer index, PDU) handed to a bearer by the server, in order
         self.device = Device(name='verif', address=hci.Address('F0:F1:F2:F3:F4:F5'))
         self.server = gatt_server.Server(self.device)      # fresh, empty database
         self.server.max_mtu = max_mtu
         self.device.gatt_server = self.server
-        # the sink of the fixed ATT bearer: Server.send_gatt_pdu -> device.send_l2cap_pdu(handle, ATT_CID, pdu)
+        self.by_conn_handle = {}
+        # the sink of a fixed ATT bearer: Server.send_gatt_pdu -> device.send_l2cap_pdu(handle, ATT_CID, pdu)
         def send_l2cap_pdu(connection_handle, cid, pdu):
-            assert connection_handle == CONN_HANDLE and cid == att.ATT_CID
-            self.sent.append(bytes(pdu))
+            assert cid == att.ATT_CID
+            self.sent.append((self.by_conn_handle[connection_handle], bytes(pdu)))
         self.device.send_l2cap_pdu = send_l2cap_pdu
-        self.conn = Connection(self.device, CONN_HANDLE, core.PhysicalTransport.LE,
-                               hci.Address('00:11:22:33:44:55'), None, hci.Address('A0:A1:A2:A3:A4:A5'), None,
-                               hci.Role.PERIPHERAL, None)
-        self.conn.gatt_server = self.server
-        self.device.connections[CONN_HANDLE] = self.conn
-        self.conn.encryption = 1 if bearer['enc'] else 0
-        self.conn.authenticated = bool(bearer['auth'])
-        self.enhanced = bool(bearer.get('enh'))
-        if self.enhanced:
-            env = self
+        env = self
 
-            class CapturingChannel(l2cap.LeCreditBasedChannel):
-                def write(self, data):          # the sink of an EATT bearer
-                    env.sent.append(bytes(data))
+        class CapturingChannel(l2cap.LeCreditBasedChannel):
+            def write(self, data):          # the sink of an EATT bearer
+                env.sent.append((self.verif_index, bytes(data)))
 
-            self.channel = CapturingChannel(self.device.l2cap_channel_manager, self.conn, att.EATT_PSM, 0x40, 0x41,
-                                            bearer['mtu'], 64, 10, bearer['mtu'], 64, 10, True)
-            # let the real register_eatt() install its sink on the channel
-            captured = {}
-            self.device.create_l2cap_server = lambda spec, handler: captured.setdefault('h', handler)
-            self.server.register_eatt()
-            captured['h'](self.channel)
-            self.bearer = self.channel
-        else:
-            self.channel = None
-            self.bearer = self.conn
-        self.bearer.att_mtu = bearer['mtu']
+        def new_connection(k, spec):
+            conn = Connection(self.device, CONN_HANDLE + k, core.PhysicalTransport.LE,
+                              hci.Address('00:11:22:33:44:55'), None, hci.Address('A0:A1:A2:A3:A4:%02X' % (0xA5 + k)),
+                              None, hci.Role.PERIPHERAL, None)
+            conn.gatt_server = self.server
+            conn.encryption = 1 if spec['enc'] else 0
+            conn.authenticated = bool(spec['auth'])
+            self.device.connections[CONN_HANDLE + k] = conn
+            return conn
+
+        self.bearers = []       # the objects the server sees
+        self.conns = []         # the connection of each bearer
+        self.kinds = []
+        eatt_handler = {}
+        for k, spec in enumerate(bearers):
+            if spec.get('enh'):
+                if 'on' in spec and spec['on'] is not None:
+                    conn = self.conns[spec['on']]
+                    assert bool(conn.encryption) == bool(spec['enc']) and conn.authenticated == bool(spec['auth'])
+                else:
+                    conn = new_connection(k, spec)      # no fixed-bearer traffic is sent on it
+                    self.by_conn_handle[CONN_HANDLE + k] = -1
+                ch = CapturingChannel(self.device.l2cap_channel_manager, conn, att.EATT_PSM, 0x40 + k, 0x80 + k,
+                                      spec['mtu'], 64, 10, spec['mtu'], 64, 10, True)
+                ch.verif_index = k
+                if not eatt_handler:
+                    # let the real register_eatt() install its sink on the channels
+                    self.device.create_l2cap_server = lambda spec, handler: eatt_handler.setdefault('h', handler)
+                    self.server.register_eatt()
+                eatt_handler['h'](ch)
+                obj = ch
+            else:
+                conn = new_connection(k, spec)
+                self.by_conn_handle[CONN_HANDLE + k] = k
+                obj = conn
+            obj.att_mtu = spec['mtu']
+            self.bearers.append(obj)
+            self.conns.append(conn)
+            self.kinds.append(bool(spec.get('enh')))
+        self.bearer = self.bearers[0]
         self.holders = {}
         self._build(db, gatt)
         self.tasks = []
@@ -297,11 +323,11 @@ class Env:
         return out
 
     # ---- stimuli
-    def deliver(self, pdu: bytes):
-        """One PDU from the peer, through the real entry point of the bearer."""
+    def deliver(self, pdu: bytes, k: int = 0):
+        """One PDU from the peer on bearer k, through the real entry point of that bearer."""
         try:
-            if self.enhanced:
-                self.channel.sink(pdu)
+            if self.kinds[k]:
+                self.bearers[k].sink(pdu)
             elif pdu[0] & 1:
                 # Device.on_gatt_pdu routes odd opcodes to the GATT client; hand them to the server the
                 # way the EATT sink does, so that "every opcode" reaches Server.on_gatt_pdu
@@ -309,9 +335,9 @@ class Env:
                     att_pdu = self.att.ATT_PDU.from_bytes(pdu)
                 except Exception:
                     return 'parse-error'
-                self.server.on_gatt_pdu(self.conn, att_pdu)
+                self.server.on_gatt_pdu(self.bearers[k], att_pdu)
             else:
-                self.device.on_gatt_pdu(CONN_HANDLE, pdu)
+                self.device.on_gatt_pdu(CONN_HANDLE + k, pdu)
         except Exception as e:          # what escapes into the transport
             return type(e).__name__
         return None
@@ -354,45 +380,58 @@ async def settle():
     return True
 
 
+def scn_bearers(scn):
+    return scn['bearers'] if 'bearers' in scn else [scn['bearer']]
+
+
+def scn_ops(scn):
+    """[(bearer index, op)]: the ops of a several-bearer scenario are [index, op]"""
+    if 'bearers' in scn:
+        return [(o[0], o[1]) for o in scn['ops']]
+    return [(0, o) for o in scn['ops']]
+
+
 def run_impl(scn):
-    """Run a scenario on the implementation.  Returns {'outs': [[hex,...] per op], 'escaped': [...],
-    'values': [hex|None per attribute], 'mtu': int, 'db': model database}."""
+    """Run a scenario on the implementation.  Returns {'outs': [[hex,...] per op] (the PDUs sent on the bearer of
+    the op), 'stray': [[bearer, hex]...] PDUs that went to ANOTHER bearer than the one stimulated, 'escaped',
+    'values': [hex per attribute], 'mtu' / 'final_mtus', 'mtus' (ATT_MTU of the op's bearer before the op),
+    'db': model database, 'ops': ops with CCCD writes resolved, 'op_bearer': bearer index per op}."""
 
     async def main():
-        env = Env(scn['db'], scn['bearer'], scn.get('max_mtu', 517))
+        env = Env(scn['db'], scn_bearers(scn), scn.get('max_mtu', 517))
         model_db = env.model_db()
-        outs = []
-        escaped = []
-        mtus = []
-        for o in scn['ops']:
+        outs, escaped, mtus, stray, resolved, idx = [], [], [], [], [], []
+        for k, o in scn_ops(scn):
             before = len(env.sent)
-            mtus.append(env.bearer.att_mtu)
+            mtus.append(env.bearers[k].att_mtu)
             esc = None
+            if o[0] == 'cccd':
+                o = ['rx', cccd_write(model_db, o)]
             if o[0] == 'rx':
-                esc = env.deliver(bytes.fromhex(o[1]))
+                esc = env.deliver(bytes.fromhex(o[1]), k)
             elif o[0] == 'rx2c':
-                e1 = env.deliver(b'\x1e')
-                e2 = env.deliver(b'\x1e')
+                e1 = env.deliver(b'\x1e', k)
+                e2 = env.deliver(b'\x1e', k)
                 esc = e1 or e2
             elif o[0] in ('notify', 'indicate'):
                 a = env.attribute(o[1])
                 v = None if o[2] is None else bytes.fromhex(o[2])
                 f = env.server._notify_single_subscriber if o[0] == 'notify' else env.server._indicate_single_bearer
                 if a is not None:
-                    env.spawn(f(env.bearer, a, v, bool(o[3])))
-            elif o[0] == 'cccd':
-                esc = env.deliver(bytes.fromhex(cccd_write(model_db, o)))
+                    env.spawn(f(env.bearers[k], a, v, bool(o[3])))
             else:
                 raise ValueError(o)
             if not await settle():
                 esc = 'hang'
-            out = env.sent[before:]
-            outs.append([p.hex() for p in out])
+            new = env.sent[before:]
+            outs.append([p.hex() for (b, p) in new if b == k])
+            stray += [[b, p.hex()] for (b, p) in new if b != k]
             escaped.append(esc)
-        res = {'outs': outs, 'escaped': escaped, 'values': [v.hex() for v in env.values()],
-               'mtu': env.bearer.att_mtu, 'mtus': mtus, 'db': model_db,
-               'ops': [['rx', cccd_write(model_db, o)] if o[0] == 'cccd' else o for o in scn['ops']],
-               'pending': env.server.pending_confirmations.get(env.bearer) is not None}
+            resolved.append(o)
+            idx.append(k)
+        res = {'outs': outs, 'escaped': escaped, 'stray': stray, 'values': [v.hex() for v in env.values()],
+               'mtu': env.bearers[0].att_mtu, 'final_mtus': [b.att_mtu for b in env.bearers], 'mtus': mtus,
+               'db': model_db, 'ops': resolved, 'op_bearer': idx}
         for t in env.tasks:
             t.cancel()
         await asyncio.sleep(0)
@@ -481,6 +520,15 @@ def coq_scenario(model_db, scn):
     ops = coq_list(scn['ops'], lambda o: coq_op(o, model_db))
     return (f"let r := run (init {db} {coq_bearer(scn['bearer'])} {coq_z(scn.get('max_mtu', 517))}) {ops} in "
             f"(opt_out r, final_values r, final_mtu r)")
+
+
+def coq_scenario_multi(model_db, scn):
+    """closed Coq term for a several-bearer scenario: (outputs per op, final values, final mtus)"""
+    db = coq_list(model_db, coq_attr)
+    ops = '[' + '; '.join(f'({k}%nat, {coq_op(o, model_db)})' for k, o in scn_ops(scn)) + ']'
+    bs = '[' + '; '.join(coq_bearer(b) for b in scn_bearers(scn)) + ']'
+    return (f"let r := mrun (minit {db} {coq_z(scn.get('max_mtu', 517))} {bs}) {ops} in "
+            f"(opt_out_m r, final_values_m r, final_mtus r)")
 
 
 def model_result(v):
